@@ -18,18 +18,21 @@ from ..cli import digest
 
 PROP = 'C15'
 LEVEL = 'exploration'
-RULE = ('pool of 16 files: uamiv, lateral boundary, bpch, ICARTT, netCDF, '
+RULE = ('pool of 18 files: uamiv, lateral boundary, bpch, ICARTT, netCDF, '
         'IOAPI-netCDF, ARL packed-bit and one-3D content, each with its '
         'canonical extension, without extension, and (one-3D / netCDF '
-        'families) under each sibling reader\'s extension. ALL open '
+        'families) under each sibling reader\'s extension, plus two '
+        'unreadable files under a reader\'s extension. ALL open '
         'histories up to the tier bound (quick: length <= 2, thorough: '
-        'length <= 3) are run from the import-time registry and followed by '
-        'every pool file as probe; 2 % of the histories are re-run in a fresh '
-        'interpreter. evaluations = probe opens; non-trivial = history is '
+        'length <= 3) are run from the import-time interpreter state (forked '
+        'children of a pristine helper process) and followed by every pool '
+        'file as probe. evaluations = probe opens; non-trivial = history is '
         'non-empty; distinct = digest of (history, probe).')
 ASSUMPTIONS = [
-    'the registry is restored to its import-time CONTENT between histories '
-    '(the fresh-interpreter re-runs validate that this is faithful)',
+    'every (history, probe) pair runs in a fork()ed child of a helper '
+    'process that has imported the library and never opened a file, so the '
+    'whole interpreter state (not only the registry list) is the '
+    'import-time state at the start of each history',
     'data digest = sha1 over every variable\'s bytes in keys() order',
     'a probe that raises is compared by exception type',
 ]
@@ -54,6 +57,9 @@ POOL = [
                                                 'arlpackedbit'),
     ('h.humidity', 'one3d', None), ('h.vertical_diffusivity', 'one3d', None),
     ('h.one3d', 'one3d', None), ('h_noext', 'one3d', None),
+    # files no reader accepts, under a reader's extension: detection fails
+    # (raises); what a failed open leaves behind is part of the history
+    ('x.humidity', 'garbage', None), ('y.nc', 'garbage', None),
 ]
 NP = len(POOL)
 
@@ -80,8 +86,7 @@ def ncases(tier):
 
 
 def gen(rng, idx, tier, seed):
-    return {'history': list(hist(tier)[idx]),
-            'fresh': idx % 50 == 7}
+    return {'history': list(hist(tier)[idx])}
 
 
 # ---------------------------------------------------------------------------
@@ -123,6 +128,7 @@ def make_pool():
     ict += ['%d, %.3f, %.3f' % (36000 + i, 40 + i, 0.1 * i)
             for i in range(40)]
     img['ict'] = ('\n'.join(ict) + '\n').encode()
+    img['garbage'] = b'\x07garbage\x00\x01'
     for name, kind, fmt in POOL:
         p = os.path.join(d, name)
         if kind == 'nc':
@@ -169,123 +175,120 @@ def observe(path, fmt=None):
             pass
 
 
+_z = {}
+
+
+def zygote():
+    """A helper process that has imported the library and has never opened a
+    file.  Every observation is made in a fork()ed child of it, so each
+    (history, probe) pair starts from the exact import-time state of the
+    whole interpreter -- not only of the registry list."""
+    if 'p' not in _z:
+        code = ("import sys\n"
+                "sys.path.insert(0, %r); sys.path.insert(0, %r)\n"
+                "from pncmon.props import c15\n"
+                "c15.serve()\n") % (harness.VERIF,
+                                     os.path.join(harness.VERIF, '.deps'))
+        _z['p'] = subprocess.Popen(
+            [sys.executable, '-c', code], stdin=subprocess.PIPE,
+            stdout=subprocess.PIPE, stderr=subprocess.DEVNULL, text=True,
+            env=dict(os.environ, PYTHONHASHSEED='0'))
+        import atexit
+        atexit.register(lambda: _z['p'].kill())
+    return _z['p']
+
+
+def ask(history_paths, probe, fmt=None):
+    z = zygote()
+    z.stdin.write(json.dumps({'history': history_paths, 'probe': probe,
+                              'fmt': fmt}) + '\n')
+    z.stdin.flush()
+    line = z.stdout.readline()
+    if not line:
+        raise RuntimeError('zygote died')
+    return json.loads(line)
+
+
+def serve():
+    """runs inside the zygote"""
+    harness.setup()
+    from PseudoNetCDF import _getreader
+    for line in sys.stdin:
+        req = json.loads(line)
+        r, w = os.pipe()
+        pid = os.fork()
+        if pid == 0:
+            os.close(r)
+            try:
+                reg0 = list(_getreader._readers)
+                grew = 0
+                for p in req['history']:
+                    observe(p)
+                    if list(_getreader._readers) != reg0:
+                        grew += 1
+                out = observe(req['probe'], fmt=req.get('fmt'))
+                out.append(grew)
+            except BaseException as e:
+                out = ['child-error:' + type(e).__name__, {}, '', 0]
+            os.write(w, json.dumps(out).encode())
+            os._exit(0)
+        os.close(w)
+        data = b''
+        while True:
+            chunk = os.read(r, 65536)
+            if not chunk:
+                break
+            data += chunk
+        os.close(r)
+        os.waitpid(pid, 0)
+        sys.stdout.write((data.decode() or 'null') + '\n')
+        sys.stdout.flush()
+
+
 _base = {}
 
 
-def baseline(pool, saved):
-    from PseudoNetCDF import _getreader
-    if _base:
-        return _base
-    for name, kind, fmt in POOL:
-        _getreader._readers[:] = list(saved)
-        _base[name] = observe(pool[name])
-    _getreader._readers[:] = list(saved)
-    return _base
-
-
-_saved = []
-
-
 def run(spec, res):
-    from PseudoNetCDF import _getreader
-    if not _saved:
-        _saved.extend(list(_getreader._readers))
-    with harness.handles():
-        pool = make_pool()
-        base = baseline(pool, _saved)
-        hist_ = spec['history']
-        _getreader._readers[:] = list(_saved)
-        grew = 0
-        for hi in hist_:
-            before = list(_getreader._readers)
-            observe(pool[POOL[hi][0]])
-            res.hook('pncopen.return')
-            res.hook('registry.snapshot')
-            if list(_getreader._readers) != before:
-                grew += 1
-        after_hist = list(_getreader._readers)
-        problems = []
-        for pi, (name, kind, fmt) in enumerate(POOL):
-            _getreader._readers[:] = list(after_hist)
-            got = observe(pool[name])
-            res.hook('pncopen.return')
-            res.ev(digest([hist_, pi]), len(hist_) > 0,
-                   ['hlen:%d' % len(hist_)])
-            if got != base[name]:
+    pool = make_pool()
+    hist_ = spec['history']
+    hpaths = [pool[POOL[h][0]] for h in hist_]
+    problems = []
+    grew = 0
+    for pi, (name, kind, fmt) in enumerate(POOL):
+        if name not in _base:
+            _base[name] = ask([], pool[name])[:3]
+        got = ask(hpaths, pool[name])
+        if got is None:
+            res.note('inconclusive:child-produced-nothing')
+            continue
+        res.hook('pncopen.return', 1 + len(hist_))
+        res.hook('registry.snapshot', len(hist_) or 1)
+        grew = max(grew, got[3] if len(got) > 3 else 0)
+        res.ev(digest([hist_, pi]), len(hist_) > 0, ['hlen:%d' % len(hist_)])
+        if got[:3] != _base[name]:
+            problems.append(
+                'after opening %s, %s opens as %s %s (from the import-time '
+                'state: %s %s)' % ([POOL[h][0] for h in hist_], name, got[0],
+                                   got[1], _base[name][0], _base[name][1]))
+    if not hist_:
+        for name, kind, fmt in POOL:
+            if fmt is None:
+                continue
+            ex = ask([], pool[name], fmt=fmt)
+            res.hook('explicit-vs-auto.compare')
+            if ex[1:3] != _base[name][1:3]:
                 problems.append(
-                    'after opening %s, %s opens as %s %s (from a fresh '
-                    'registry: %s %s)' % (
-                        [POOL[h][0] for h in hist_], name, got[0], got[1],
-                        base[name][0], base[name][1]))
-        if not hist_:
-            # explicit vs auto for self-describing formats (once)
-            for name, kind, fmt in POOL:
-                if fmt is None:
-                    continue
-                _getreader._readers[:] = list(_saved)
-                ex = observe(pool[name], fmt=fmt)
-                res.hook('explicit-vs-auto.compare')
-                if ex[1:] != base[name][1:]:
-                    problems.append(
-                        '%s: auto-detected as %s with dims %s, format=%r '
-                        'gives %s with dims %s' % (
-                            name, base[name][0], base[name][1], fmt, ex[0],
-                            ex[1]))
-        else:
-            res.hook('explicit-vs-auto.compare', 0)
-        if spec.get('fresh') and hist_:
-            r = fresh_run(hist_)
-            if r is None:
-                res.note('inconclusive:fresh-subprocess-failed')
-            else:
-                mine = []
-                for pi, (name, kind, fmt) in enumerate(POOL):
-                    _getreader._readers[:] = list(after_hist)
-                    mine.append(observe(pool[name])[0])
-                if r != mine:
-                    res.note('inconclusive:registry-restore-not-faithful')
-                    res.notes['restore_detail'] = '%s vs %s' % (r, mine)
-                else:
-                    res.facet('fresh-subprocess-agrees')
-        _getreader._readers[:] = list(_saved)
+                    '%s: auto-detected as %s with dims %s, format=%r gives '
+                    '%s with dims %s' % (name, _base[name][0],
+                                         _base[name][1], fmt, ex[0], ex[1]))
+    else:
+        res.hook('explicit-vs-auto.compare', 0)
     if problems:
         res.viol('history-dependent-detection' if hist_ else
                  'explicit-differs-from-auto',
                  '; '.join(problems[:3]), history=[POOL[h][0] for h in hist_],
-                 registry_grew_during_history=grew,
+                 registry_changed_during_history=grew,
                  nproblems=len(problems))
-
-
-def fresh_run(hist_):
-    """the same history + probes in a new interpreter"""
-    pool = make_pool()
-    code = (
-        "import sys, json\n"
-        "sys.path.insert(0, %r); sys.path.insert(0, %r)\n"
-        "from pncmon import harness; harness.setup()\n"
-        "from pncmon.props import c15\n"
-        "paths = %r\n"
-        "for h in %r:\n"
-        "    c15.observe(paths[c15.POOL[h][0]])\n"
-        "from PseudoNetCDF import _getreader\n"
-        "after = list(_getreader._readers)\n"
-        "out = []\n"
-        "for name, kind, fmt in c15.POOL:\n"
-        "    _getreader._readers[:] = list(after)\n"
-        "    out.append(c15.observe(paths[name])[0])\n"
-        "print('RESULT' + json.dumps(out))\n"
-    ) % (harness.VERIF, os.path.join(harness.VERIF, '.deps'), dict(pool),
-         list(hist_))
-    try:
-        p = subprocess.run([sys.executable, '-c', code], capture_output=True,
-                           timeout=120, text=True,
-                           env=dict(os.environ, PYTHONHASHSEED='0'))
-        for line in p.stdout.splitlines():
-            if line.startswith('RESULT'):
-                return json.loads(line[6:])
-    except Exception:
-        pass
-    return None
 
 
 def extra_coverage(agg, tier):
